@@ -114,6 +114,10 @@ func (c *conn) rangeAndClean(f func(index int, resultChan chan data)) {
 }
 
 func (c *conn) Transport(ctx context.Context, request []byte) (response []byte, err error) {
+	if len(request) > maxBodyLength {
+		// it cannot be carried by one datagram: an error for this call, nothing else
+		return nil, core.ErrRequestEntityTooLarge
+	}
 	resultChan := make(chan data, 1)
 	index, ok := c.store(resultChan)
 	if !ok {
@@ -167,6 +171,11 @@ func (c *conn) send(request data) (err error) {
 func (c *conn) Send(ctx context.Context, onExit func()) {
 	var err error
 	defer func() {
+		// recover has to be called here, directly by the deferred function:
+		// inside Exit it would not stop a panic of the loop
+		if e := recover(); e != nil {
+			err = core.NewPanicError(e)
+		}
 		c.Exit(onExit, err)
 	}()
 	for {
@@ -218,6 +227,11 @@ func (c *conn) receive() (err error) {
 func (c *conn) Receive(ctx context.Context, onExit func()) {
 	var err error
 	defer func() {
+		// recover has to be called here, directly by the deferred function:
+		// inside Exit it would not stop a panic of the loop
+		if e := recover(); e != nil {
+			err = core.NewPanicError(e)
+		}
 		c.Exit(onExit, err)
 	}()
 	for {
